@@ -1,7 +1,7 @@
 (* C06, forward simulation for ALL statement forms: the program-level theorem.
    Every run of the linear AxCut machine that does not run out of fuel is reproduced by the x86-64 code on the
    ISA model, with the same observation, for every linearly checked program whose entry takes integers.
-   Hypotheses besides the checks of C14 on the output (`asm_wf`, `code_small`) and the plain names:
+   Besides the checks of C14 on the output (`asm_wf`, `code_small`) and the plain names, two hypotheses:
      ann_check_prog p   the annotation of every Create is the end of its context (Proof/X86HAnn.v; holds for
                         every output of the linearization pass, Proof/X86HAnnLin.v);
      heap_fits p args   the run stays inside the 32 MiB heap region of the ISA model (the linear machine
